@@ -225,7 +225,7 @@ Proof.
     destruct (handle _ m) as [x| |] eqn:H; try discriminate. injection Hstep as <-.
     eapply (sum_handle (clear_events s)); [apply kinv_clear; exact Hi| |exact H|exact Hpp].
     eapply (sum_inv_frame s); [..|exact Hinv]; reflexivity.
-  - injection Hstep as <-. apply (fold_left_inv sum_inv).
+  - destruct (forallb pchange_valid _); [|discriminate]. injection Hstep as <-. apply (fold_left_inv sum_inv).
     + intros x c Hx. pose proof (apply_pchange_keeps x c). eapply sum_inv_keeps; eauto.
     + eapply (sum_inv_frame s); [..|exact Hinv]; reflexivity.
   - destruct (end_block _) as [se| |] eqn:H; try discriminate. injection Hstep as <-.
